@@ -1,9 +1,14 @@
 import random
 
-from anytree import AnyNode, LightNodeMixin, NodeMixin
+from anytree import AnyNode, LightNodeMixin, NodeMixin, SymlinkNode
 from anytree import util
 import implutil
-from implutil import lbls
+
+LABEL = {}
+
+
+def lbls(nodes):
+    return [LABEL[id(n)] for n in nodes]
 
 
 class LNode(LightNodeMixin):
@@ -32,8 +37,21 @@ def build_any(t, cls, how, seed):
     collect(t, ())
     A, Lc, Mc = implutil.adv(AnyNode), implutil.adv(LNode), implutil.adv(MNode)
     mk = (lambda lbl: A(lbl=lbl)) if cls == "any" else (lambda lbl: Lc(lbl)) if cls == "light" else (lambda lbl: Mc(lbl))
-    for pos, lbl, _ in flat:
-        nodes[pos] = mk(lbl)
+    LABEL.clear()
+    if cls == "symmix":
+        # every second node (not the root) is a SymlinkNode whose target is the root or the first child:
+        # links sit at other depths than their targets
+        S = implutil.adv(SymlinkNode)
+        for i, (pos, lbl, _) in enumerate(flat):
+            if i >= 2 and i % 2 == 0:
+                nodes[pos] = S(nodes[flat[i % 3 == 0][0]])
+            else:
+                nodes[pos] = A(lbl=lbl)
+            LABEL[id(nodes[pos])] = lbl
+    else:
+        for pos, lbl, _ in flat:
+            nodes[pos] = mk(lbl)
+            LABEL[id(nodes[pos])] = lbl
     if how == "direct":
         for pos, lbl, kids in flat:
             for k in kids:
@@ -70,14 +88,14 @@ def run_case(c):
         return None
     n = nodes[tuple(c["pos"])]
     out = {
-        "path": lbls(n.path), "ancestors": lbls(n.ancestors), "root": n.root.lbl, "depth": n.depth,
+        "path": lbls(n.path), "ancestors": lbls(n.ancestors), "root": LABEL[id(n.root)], "depth": n.depth,
         "is_root": bool(n.is_root), "is_leaf": bool(n.is_leaf), "siblings": lbls(n.siblings),
         "descendants": lbls(n.descendants), "leaves": lbls(n.leaves), "size": n.size, "height": n.height,
         "common": lbls(util.commonancestors(*[nodes[tuple(p)] for p in c["cps"]])),
     }
     ls, rs = util.leftsibling(n), util.rightsibling(n)
-    out["left"] = None if ls is None else ls.lbl
-    out["right"] = None if rs is None else rs.lbl
+    out["left"] = None if ls is None else LABEL[id(ls)]
+    out["right"] = None if rs is None else LABEL[id(rs)]
     for k in ("path", "ancestors", "siblings", "descendants", "leaves"):
         if not isinstance(getattr(n, k), tuple):
             return {"crash": "%s is not a tuple" % k}
